@@ -421,3 +421,135 @@ def check_reader_structure(ctx, F, rule="E-DDDMP.reader"):
     ctx.ob(rule, rule, not fails, "DDDMP reader structure: %s" % (" || ".join(fails[:3]) if fails else
            "%d length validations use `!=`, roots complemented for negative ids, `.end` required" % lens))
     return n
+
+
+def _is_err_branch(x):
+    """the `then` branch of `x` returns the importer's error"""
+    return any(y.get("k") == "ret" and any((z.get("f") or {}).get("n", "").endswith("import::err") for z in H.walk(y) if z.get("k") == "call")
+               for y in H.walk(x.get("t") or {}))
+
+
+def _for_var(m):
+    """bound names of a desugared for loop `match into_iter(..) { mut iter => loop { match next() { Some(pat) => .. } } }`"""
+    try:
+        m2 = m["arms"][0]["b"]["b"]["s"][0]["e"]
+        some = [a for a in m2["arms"] if (a["p"].get("p") or {}).get("n", "").endswith("Some")][0]
+        return {y["n"]: y.get("lid") for y in H.walk(some["p"]) if y.get("k") == "bind"}, some["b"]
+    except (KeyError, IndexError, TypeError):
+        return {}, None
+
+
+def check_node_records(ctx, F, rule="E-DDDMP.noderec"):
+    """Per-node validation of the two node readers (none of it is reached by the repository's tests):
+      arity     `import_ascii` rejects a line exactly when `children.len() != ARITY` (error on the `!=` edge); `import_bin`
+                asserts `ARITY == 2` at compile time;
+      terminal  `import_ascii` recognises a terminal by `children.contains(&0)` (the writer ends terminal lines in ` 0 0`,
+                E-DDDMP.ascii): the `true` branch parses the terminal, the `false` branch reduces an inner node;
+      earlier   a child id is compared with the id of the node being read (the counter of the `1..=nnodes` loop) before
+                `nodes[child - 1]` is read, and the error is raised exactly for `child >= node_id` (at that point `nodes`
+                holds node_id - 1 entries);
+      binids    `import_bin::idx`, interpreted: an absolute id of 0, of node_id or beyond, a relative offset of 0 or beyond
+                node_id yield Err (the writer never produces these, so the inversion check above cannot see them)."""
+    n = 0
+    fails = []
+    ia = "oxidd_dump::dddmp::import::import_ascii"
+    ib = "oxidd_dump::dddmp::import::import_bin"
+    if not ctx.anchor(rule, "import_ascii / import_bin", ia in F.hir and ib in F.hir):
+        return 0
+    body = F.hir[ia]["body"]
+    # the node loop and its counter
+    loops = []
+    for x in H.walk(body):
+        if x.get("k") == "match" and (x.get("src") or "").startswith("ForLoopDesugar"):
+            src = x["e"]["a"][0] if x["e"].get("k") == "call" and x["e"].get("a") else x["e"]
+            if any(y.get("k") == "field" and y.get("n") == "nnodes" for y in H.walk(src)):
+                loops.append(x)
+    if not ctx.anchor(rule, "import_ascii: the loop over 1..=header.nnodes", len(loops) == 1):
+        return 0
+    rng = loops[0]["e"]["a"][0]
+    starts_at_one = any(y.get("k") == "lit" and str(y.get("v")) == "1" for y in H.walk(rng)) and \
+        any((y.get("p") or {}).get("n", "").endswith("RangeInclusive") or (y.get("f") or {}).get("n", "").endswith("RangeInclusive::<Idx>::new")
+            for y in H.walk(rng) if y.get("k") in ("struct", "call"))
+    n += 1
+    if not starts_at_one:
+        fails.append("the node loop does not range over 1..=header.nnodes (node ids are 1-based)")
+    names, lbody = _for_var(loops[0])
+    ctr = next(iter(names), None)
+    # arity
+    n += 1
+    ar = [x for x in H.walk(body) if x.get("k") == "if" and x["c"].get("k") == "bin" and
+          any(y.get("k") == "path" and y.get("item") == "ARITY" for y in H.walk(x["c"])) and
+          any(y.get("k") == "mcall" and y.get("name") == "len" for y in H.walk(x["c"]))]
+    if len(ar) != 1 or ar[0]["c"]["o"] != "!=" or not _is_err_branch(ar[0]):
+        fails.append("import_ascii does not reject a node line exactly when `children.len() != ARITY`")
+    cb = [x for x in H.walk(F.hir[ib]["body"]) if x.get("k") == "constblock"]
+    asserts = [y for x in cb for y in H.walk(x) if y.get("k") == "bin" and any(z.get("item") == "ARITY" for z in H.walk(y))]
+    n += 1
+    if not (len(asserts) == 1 and asserts[0]["o"] == "==" and {str(z.get("v")) for z in H.walk(asserts[0]) if z.get("k") == "lit"} == {"2"}):
+        fails.append("import_bin does not assert `ARITY == 2` at compile time")
+    # terminal
+    n += 1
+    tm = [x for x in H.walk(body) if x.get("k") == "if" and "e" in x and x["c"].get("k") == "mcall" and x["c"].get("name") == "contains"]
+    ok = False
+    if len(tm) == 1:
+        arg = tm[0]["c"]["a"][0]
+        while arg.get("k") in ("ref", "use"):
+            arg = arg["e"]
+        then_term = any(y.get("k") == "mcall" and y.get("name") == "get_terminal" for y in H.walk(tm[0]["t"]))
+        else_inner = any((y.get("k") in ("call", "mcall")) and ((y.get("f") or {}).get("item") == "reduce" or y.get("name") == "reduce"
+                                                                or (y.get("f") or {}).get("n", "").endswith("::reduce")) for y in H.walk(tm[0]["e"]))
+        ok = arg.get("k") == "lit" and str(arg.get("v")) == "0" and then_term and else_inner and H.root_local(tm[0]["c"]["r"]) is not None
+    if not ok:
+        fails.append("import_ascii does not recognise terminals by `children.contains(&0)` (true: terminal, false: inner node)")
+    # earlier
+    n += 1
+    cmps = []
+    if ctr is not None and lbody is not None:
+        for x in H.walk(lbody):
+            if x.get("k") == "if" and x["c"].get("k") == "bin" and x["c"]["o"] in ("<", "<=", ">", ">="):
+                l, r = x["c"]["l"], x["c"]["r"]
+                sides = [(s.get("k") == "path" and s.get("res") == "local" and s.get("n") == ctr and s.get("lid") == names[ctr]) for s in (l, r)]
+                if any(sides):
+                    op = x["c"]["o"] if sides[1] else {"<": ">", "<=": ">=", ">": "<", ">=": "<="}[x["c"]["o"]]
+                    cmps.append((x, op, (l if sides[1] else r)))
+    idx_lines = [y.get("ln") for y in H.walk(lbody or {}) if y.get("k") == "index" and H.root_local(y["e"]) == "nodes"]
+    if len(cmps) != 1:
+        fails.append("import_ascii: expected one range check of a child id against the id of the node being read, found %d" % len(cmps))
+    else:
+        x, op, other = cmps[0]
+        if op != ">=" or not _is_err_branch(x):
+            fails.append("import_ascii (line %s): the child-id check is `child %s node_id` -> error, expected `child >= node_id`: `nodes` "
+                         "holds node_id - 1 entries when `nodes[child - 1]` is read" % (x.get("ln"), op))
+        if not idx_lines or min(idx_lines) <= (x.get("ln") or 0):
+            fails.append("import_ascii: `nodes[..]` is read (line %s) before the child id was checked (line %s)" % (min(idx_lines or [0]), x.get("ln")))
+    ctx.ob(rule, rule + ":ascii", not fails, "node records of the ASCII reader (%s): %s" % (F.where(ia), " || ".join(fails[:3]) if fails else
+           "arity, terminal recognition and child-id range checks as the format demands"))
+    # binids: reject cases of import_bin::idx
+    fails = []
+    rid = ib + "::idx"
+    if ctx.anchor(rule, "import_bin::idx", rid in F.hir):
+        cases = []
+        for nid in (1, 2, 5):
+            cases += [(nid, "AbsoluteID", 0), (nid, "AbsoluteID", nid), (nid, "AbsoluteID", nid + 1),
+                      (nid, "RelativeID", 0), (nid, "RelativeID", nid), (nid, "RelativeID", nid + 3)]
+        cases += [(1, "Relative1", None), (1, "Terminal", None)]
+        for nid, cd, payload in cases:
+            holder = {}
+
+            def mk(oracle):
+                d = BinDomain(F)
+                d.payloads = [payload] if payload is not None else []
+                holder["d"] = d
+                return Interp(F, d, oracle)
+            for trace, (status, val) in enumerate_runs(mk, lambda it: it.call_fn(rid, [Opaque("input"), nid, code(cd)])):
+                n += 1
+                sit = "node %d, code %s%s" % (nid, cd, "" if payload is None else ", number %d" % payload)
+                if status == "panic" and "debug" not in str(val):
+                    fails.append("%s: the reader panics (%s)" % (sit, val))
+                elif status != "ok":
+                    fails.append("%s: %s %s" % (sit, status, val))
+                elif not (isinstance(val, Enum) and val.path == ERR):
+                    fails.append("%s: accepted as %r although the id is not an earlier node" % (sit, val))
+    ctx.ob(rule, rule + ":binids", not fails, "out-of-range child ids of the binary reader (%s): %s" % (F.where(rid) if rid in F.hir else ib,
+           " || ".join(fails[:3]) if fails else "rejected with an error"))
+    return n
